@@ -33,12 +33,19 @@ const (
 	c17TcpRefuses
 	c17TcpFailsMid
 	c17TcpStale // every TCP connection answers its first query and is closed by the server when a second one arrives
+	c17TcpSlowFirst // the first query over TCP is answered after 4 s only (later than the deadline of the exchange that sent it), the others at once
 )
 
 type c17sys struct {
 	flags   uint16
 	size    int
 	tcpMode int
+	warmFail int // earlier exchanges whose TCP retry was refused (history of failures)
+	tcpDown  bool // the TCP side refuses connections right now
+	nonce    uint32
+	slowDone bool
+	slowPending bool
+	slowQueue   [][]byte
 	warm    bool // an earlier exchange of the same kind has left its TCP connection in the pool
 	socks5  bool // Opt.Socks5 is set (not implemented for UDP upstreams: both legs must still go to the server itself)
 	q       []byte
@@ -85,7 +92,7 @@ func (k c17sink) Dial(ctx context.Context, network, addr string) (stdnet.Conn, e
 		}
 		return a, nil
 	case "tcp":
-		if s.tcpMode == c17TcpRefuses {
+		if s.tcpMode == c17TcpRefuses || s.tcpDown {
 			return nil, c17dialErr
 		}
 		a, b := fk.NewPipe("tcp", false)
@@ -109,8 +116,27 @@ func (k c17sink) Dial(ctx context.Context, network, addr string) (stdnet.Conn, e
 					b.ShutdownPeer()
 					continue
 				}
-				rep := fk.Answer(m, 4242)
+				s.nonce++
+				rep := fk.Answer(m, 4242+s.nonce)
+				if s.tcpMode == c17TcpSlowFirst && !s.slowDone {
+					// an in-order server: the first answer takes 4 s, answers to later
+					// queries on this connection queue up behind it
+					s.slowDone, s.slowPending = true, true
+					vs.GoNamed("slow-tcp-answer", func() {
+						vs.Sleep(4 * time.Second)
+						a.Deliver(fk.Frame(rep))
+						for _, q := range s.slowQueue {
+							a.Deliver(fk.Frame(q))
+						}
+						s.slowPending, s.slowQueue = false, nil
+					})
+					continue
+				}
 				s.tcpRep = rep
+				if s.slowPending && served > 1 {
+					s.slowQueue = append(s.slowQueue, rep)
+					continue
+				}
 				a.Deliver(fk.Frame(rep))
 			}
 			return nil
@@ -141,6 +167,18 @@ func (s *c17sys) run() {
 	if err != nil {
 		panic(err)
 	}
+	for k := 0; k < s.warmFail; k++ {
+		s.tcpDown = true
+		fctx, fcancel := vs.WithTimeout(context.Background(), 3*time.Second)
+		if fr, _ := u.ExchangeContext(fctx, s.q); fr != nil {
+			pool.ReleaseBuf(fr)
+		}
+		fcancel()
+	}
+	if s.warmFail > 0 {
+		// the TCP side is back; only what follows is judged
+		s.tcpDown, s.dials, s.tcpGot = false, nil, nil
+	}
 	if s.warm {
 		wctx, wcancel := vs.WithTimeout(context.Background(), 3*time.Second)
 		if wr, _ := u.ExchangeContext(wctx, s.q); wr != nil {
@@ -162,7 +200,7 @@ func (s *c17sys) run() {
 // judge returns an outcome class and an optional violation (oracle, description).
 func (s *c17sys) judge(x *vs.Exec) (string, string, string) {
 	tc := s.flags&0x0200 != 0
-	desc := fmt.Sprintf("udp reply flags=%#04x size=%d tcpMode=%d socks5=%v warm=%v -> err=%v resp=%d bytes dials=%v tcpQueries=%d", s.flags, s.size, s.tcpMode, s.socks5, s.warm, s.err, len(s.resp), s.dials, len(s.tcpGot))
+	desc := fmt.Sprintf("udp reply flags=%#04x size=%d tcpMode=%d socks5=%v warm=%v failedBefore=%d -> err=%v resp=%d bytes dials=%v tcpQueries=%d", s.flags, s.size, s.tcpMode, s.socks5, s.warm, s.warmFail, s.err, len(s.resp), s.dials, len(s.tcpGot))
 	if x.Panic != "" {
 		return "panic", "panic", x.Panic + "\n" + desc
 	}
@@ -205,7 +243,10 @@ func (s *c17sys) judge(x *vs.Exec) (string, string, string) {
 		}
 	}
 	switch s.tcpMode {
-	case c17TcpAnswers, c17TcpStale:
+	case c17TcpAnswers, c17TcpStale, c17TcpSlowFirst:
+		if s.tcpMode == c17TcpSlowFirst && !s.warm {
+			break // the judged exchange itself hit the slow answer: it may time out
+		}
 		if s.err != nil || !bytes.Equal(s.resp, s.tcpRep) {
 			return "tc", "tcp-reply-not-returned", "the TCP reply is not what the caller got\n" + desc
 		}
@@ -230,9 +271,10 @@ func TestVerifC17a(t *testing.T) {
 		TcpMode int    `json:"tcp_mode"`
 		Socks5  bool   `json:"socks5,omitempty"`
 		Warm    bool   `json:"warm,omitempty"`
+		WarmFail int   `json:"warm_fail,omitempty"`
 	}
 	runOne := func(c in) (string, string, string) {
-		s := &c17sys{flags: c.Flags, size: c.Size, tcpMode: c.TcpMode, socks5: c.Socks5, warm: c.Warm}
+		s := &c17sys{flags: c.Flags, size: c.Size, tcpMode: c.TcpMode, socks5: c.Socks5, warm: c.Warm, warmFail: c.WarmFail}
 		x := vs.Run1(vs.Config{Horizon: time.Minute}, s.run)
 		res.Transitions += int64(x.Events)
 		return s.judge(x)
@@ -294,6 +336,16 @@ func TestVerifC17a(t *testing.T) {
 			}
 		}
 	}
+	for b2 := 0; b2 < 256; b2++ {
+		cases = append(cases, in{Flags: uint16(b2<<8 | 0x80), Size: 512, TcpMode: c17TcpSlowFirst, Warm: true})
+	}
+	// a history of failed TCP retries (1, 15, 16, 17, 40 of them), then the TCP side is back
+	for _, k := range []int{1, 15, 16, 17, 40} {
+		for _, fl := range []uint16{0x8380, 0x8180, 0x0200, 0xFFFF} {
+			cases = append(cases, in{Flags: fl, Size: 512, TcpMode: c17TcpAnswers, WarmFail: k})
+		}
+	}
+	res.Bounds["history"] = "1/15/16/17/40 earlier exchanges whose TCP retry was refused, then a working TCP side; a first TCP answer that arrives after the deadline of the exchange that asked for it, then another truncated exchange"
 	res.Bounds["warm"] = "after an earlier exchange of the same kind: all 256 values of byte 2 x sizes x TCP side {answers, fails mid-exchange, pooled connection closed by the server on reuse}"
 	res.Bounds["socks5"] = "Opt.Socks5 set: all 256 values of byte 2 x sizes x TCP behaviours"
 	res.Bounds["sizes"] = c17Sizes
@@ -335,7 +387,7 @@ func TestVerifC17b(t *testing.T) {
 			sys = &c17sys{}
 			sys.flags = flagsMenu[vs.Choose(len(flagsMenu))]
 			sys.size = c17Sizes[vs.Choose(2)]
-			sys.tcpMode = vs.Choose(4)
+			sys.tcpMode = vs.Choose(5)
 			sys.socks5 = vs.Choose(2) == 1
 			sys.warm = vs.Choose(2) == 1
 			sys.run()
